@@ -39,7 +39,7 @@ def base_scenario(rng, tables, nthreads=None, nlooms=None, models=("ovni",)):
     return s
 
 
-def thread_history(rng, s, length, p_legal_num=85, with_affinity=True, end_all=True, careful=None):
+def thread_history(rng, s, length, p_legal_num=85, with_affinity=True, end_all=True, careful=None, spice=False):
     """fills s.events with OH*/OA* events; returns the python-side shadow state (for other generators).
     careful: mostly-valid stream (legal transitions, free CPUs, valid affinity targets)."""
     n = len(s.threads)
@@ -75,6 +75,22 @@ def thread_history(rng, s, length, p_legal_num=85, with_affinity=True, end_all=T
                 if idx != cpu[u]:
                     s.events.append((t, clk, "OAr", i32(idx) + i32(s.threads[u]["tid"])))
                     cpu[u] = idx
+                    continue
+            if spice and with_affinity and r >= 97:
+                # a remote affinity event naming the CPU its target is already on (the documentation is silent; if
+                # the emulator accepts it nothing may move)
+                cands = [u for u in range(n) if s.threads[u]["loom"] == loom and st[u] not in ("Unknown", "Dead") and cpu[u] is not None]
+                if cands:
+                    u = rng.choice(cands)
+                    s.events.append((t, clk, "OAr", i32(cpu[u]) + i32(s.threads[u]["tid"])))
+                    continue
+            if spice and r == 96 and st[t] not in ("Unknown", "Dead"):
+                # ONE illegal event in an otherwise legal history that goes on legally afterwards: the last event of
+                # this thread once more (no state of the machine allows the same event twice in a row)
+                last = [e for e in s.events if e[0] == t and e[2][:2] == "OH"]
+                if last:
+                    s.events.append((t, clk, last[-1][2], last[-1][3]))
+                    spice = False
                     continue
             if not legal:
                 continue
